@@ -44,6 +44,8 @@ func wirePool(a *aspec.ASpec) {
 			o.AddlK, o.Addl = "schema", &str
 			return o
 		}()},
+		aspec.NamedSchema{Name: "Names", Schema: aspec.Schema{K: "array", Items: &str}},
+		aspec.NamedSchema{Name: "Roster", Schema: objSchema(aspec.Prop{Name: "names", Schema: aspec.Schema{K: "ref", To: "Names"}, Req: true}, aspec.Prop{Name: "more", Schema: aspec.Schema{K: "ref", To: "Names"}}, aspec.Prop{Name: "inline", Schema: aspec.Schema{K: "array", Items: &i64}, Req: true})},
 		aspec.NamedSchema{Name: "Things", Schema: aspec.Schema{K: "array", Items: &aspec.Schema{K: "ref", To: "Thing"}}},
 	)
 	for _, t := range wireTypes {
@@ -89,7 +91,9 @@ func bodyVia(a *aspec.ASpec, b aspec.Body) string {
 
 func randSchemaBody(rng *rand.Rand) aspec.Body {
 	str := aspec.Schema{K: "string"}
-	switch rng.Intn(7) {
+	switch rng.Intn(8) {
+	case 7:
+		return aspec.Body{K: "json", Schema: &aspec.Schema{K: "ref", To: "Roster"}}
 	case 0:
 		return aspec.Body{K: "none"}
 	case 1:
